@@ -15,11 +15,11 @@ demo_dir=$(python3 -c "import json;print(json.load(open('$dst/meta.json')).get('
 demo_cmd=$(python3 -c "import json;print(json.load(open('$dst/meta.json')).get('demo_cmd',''))")
 cd "$wt" || exit 2
 git checkout -q -- . ; git clean -q -fd -e .seed >/dev/null 2>&1
-cp "$dst"/demo/*_test.go "$demo_dir/" 2>/dev/null
+for f in "$dst"/demo/*_test.go; do cp "$f" "$demo_dir/zz_seed_$(basename "$f")" 2>/dev/null; done
 clean_out=$(sh -c "$demo_cmd" 2>&1 | tail -3); clean_rc=$(sh -c "$demo_cmd" >/dev/null 2>&1; echo $?)
 git apply "$dst/patch.diff" || { echo "patch does not apply"; exit 2; }
 patched_rc=$(sh -c "$demo_cmd" >/dev/null 2>&1; echo $?)
-rm -f "$demo_dir"/demo_test.go
+rm -f "$demo_dir"/zz_seed_*_test.go "$demo_dir"/demo_test.go
 rm -rf kvgraph/test/test.db.* 2>/dev/null
 base_out=$(VERIF_REPO="$wt" /verif/baseline.sh 2>&1 | tail -3)
 base_rc=$?
